@@ -82,6 +82,8 @@ package mpx
 //@   modifies pools.*
 //@   resets[C18] h
 
+//@ define MK(m) = viewId(obj(m.msg.bytes), off(m.msg.bytes), len(m.msg.bytes))
+
 // ---- handshake and dispatch (C11): channel handlers run only on negotiated connections
 //
 // ghost(flagSet, c.handshaked) == 1 records that this call has set the handshaked flag. The
@@ -212,7 +214,7 @@ package mpx
 //@ func (*conn).receiveMessage
 //@   safety[C11]
 //@   requires c != nil
-//@   let code = ghost(msgCode, obj(msg.msg.bytes))
+//@   let code = ghost(msgCode, MK(msg))
 //@   modifies ghost.errMade at 0
 //@   ensures[C11] result.Code != "ok" ==> ghost(errMade, 0) == 1
 //@   ensures[C11] result.Code == "ok" ==> ghost(errMade, 0) == old(ghost(errMade, 0))
@@ -227,7 +229,7 @@ package mpx
 //@   trusted
 //@ func (Message).Code
 //@   trusted
-//@   ensures result == ghost(msgCode, obj(m.msg.bytes))
+//@   ensures result == ghost(msgCode, MK(m))
 //@ func (Message).ConnectRequest
 //@   trusted
 //@ func (Message).ConnectResponse
